@@ -52,6 +52,9 @@ def run_c13(ctx):
         raise Infra("the harness could not establish %d of %d blocking states" % (len(notreached), len(recs)))
     for b in bad:
         r = b["rec"]
+        if b["what"] == "UncorrelatedEmittedAtShutdown":
+            ctx.notes.append("events of a session without login were written while the processor shut down (reported by the C04 check)")
+            continue
         if b["what"] == "WriteErrorLost":
             ctx.notes.append("a write error was lost on the way out of the sshd worker (reported by the C05 check)")
             continue
